@@ -9,7 +9,9 @@
 (* view (symlinks made by the real backend.Backend; `fold` is the same     *)
 (* view folded from the fake backend's recorded ops).  The next state IS   *)
 (* that real state; pre/mon are computed from real states with the spec's  *)
-(* operators and every E02 invariant is evaluated on them.                 *)
+(* operators and every E02 invariant is evaluated on them (Monitor: a       *)
+(* failing invariant is reported with its line and validation continues;   *)
+(* TraceAliasesInv.cfg lists them as INVARIANTS instead: stop at first).   *)
 (* With Strict (default) each step must in addition be exactly the spec's  *)
 (* step: same task chain for the request (kinds, snaps, arguments, waits,  *)
 (* lanes), same outcome of every task (done / failed and how), same        *)
@@ -30,7 +32,8 @@ IsEv(e)  == l <= Len(Trace) /\ Trace[l].ev = e /\ l' = l + 1
 
 LInst == [s \in Snaps |-> Ev.st.inst[s]]
 LRec  == [s \in Snaps |-> [dis |-> Ev.st.rec[s].dis, pend |-> Ev.st.rec[s].pend,
-                           al |-> [n \in Names |-> [m |-> Ev.st.rec[s].al[n].m, a |-> Ev.st.rec[s].al[n].a]]]]
+                           al |-> [n \in Names |-> [m |-> Ev.st.rec[s].al[n].m, a |-> Ev.st.rec[s].al[n].a]],
+                           act |-> Ev.st.rec[s].act]]
 LSys  == [n \in Names |-> [s |-> Ev.st.sys[n].s, a |-> Ev.st.sys[n].a]]
 LFold == [n \in Names |-> [s |-> Ev.st.fold[n].s, a |-> Ev.st.fold[n].a]]
 LDecl == [s \in Snaps |-> [n \in Names |-> Ev.st.decl[s][n]]]
@@ -38,7 +41,10 @@ LW    == [inst |-> LInst, rec |-> LRec, sys |-> LSys]
 
 \* the real post-state becomes the next state; the two system views must agree
 TakeLogged == inst' = LInst /\ rec' = LRec /\ sys' = LSys /\ LFold = LSys
-SameWorld(W) == LW = W
+\* Active is taken from the log as it is (tasks that are not logged toggle it: unlink-current-snap, link-snap); the
+\* spec reads it (refresh of a disabled snap is refused, remove of an inactive snap has no remove-aliases task)
+NoAct(W) == [W EXCEPT !.rec = [s \in Snaps |-> [W.rec[s] EXCEPT !.act = FALSE]]]
+SameWorld(W) == NoAct(LW) = NoAct(W)
 DeclSame  == LDecl = decl
 
 LTask(t) == [k |-> t.k, s |-> t.s, anc |-> ToSet(t.anc), lane |-> t.lane, n |-> t.n, app |-> t.app,
@@ -57,7 +63,7 @@ LOp == Op(Ev.op.kind, Ev.op.s, Ev.op.app, Ev.op.n, Ev.op.flag)
 TReset ==
     /\ IsEv("Reset")
     /\ TakeLogged
-    /\ LRec = [s \in Snaps |-> EmptyRec] /\ LSys = [n \in Names |-> NoTgt]
+    /\ LRec = [s \in Snaps |-> [EmptyRec EXCEPT !.act = LInst[s]]] /\ LSys = [n \in Names |-> NoTgt]
     /\ decl' = LDecl
     /\ chg' = Idle
     /\ pre' = LW
@@ -124,13 +130,6 @@ TUndo ==
            /\ chg' = r.C
     /\ UNCHANGED <<decl, pre, mon, nops>>
 
-\* a task the request did not list finished (injected at run time): it must not touch aliases
-TOther ==
-    /\ IsEv("Other")
-    /\ TakeLogged /\ DeclSame
-    /\ Strict => SameWorld(CurW)
-    /\ UNCHANGED <<decl, chg, pre, mon, nops>>
-
 TSettle ==
     /\ IsEv("Settle")
     /\ ~IsIdle
@@ -142,7 +141,19 @@ TSettle ==
     /\ UNCHANGED <<decl, nops>>
 
 TInit == Init /\ l = 1
-TNext == TReset \/ TDecl \/ TRefused \/ TRequest \/ TDo \/ TFail \/ TUndo \/ TOther \/ TSettle
+\* The E02 invariants evaluated on the real post-state of every step.  A failing one is reported
+\* (VERIF-VIOL line, invariant) and validation goes on, so that one pass finds every violating history.
+Checks == <<[name |-> "TypeOK", ok |-> TypeOK],
+            [name |-> "SysMatchesState", ok |-> SysMatchesState],
+            [name |-> "NoPendingWhenSettled", ok |-> NoPendingWhenSettled],
+            [name |-> "NoDoubleAlias", ok |-> NoDoubleAlias],
+            [name |-> "NoNamespaceClash", ok |-> NoNamespaceClash],
+            [name |-> "RefreshKeepsManualFollowsDecl", ok |-> RefreshKeepsManualFollowsDecl],
+            [name |-> "FailedChangeRestores", ok |-> FailedChangeRestores]>>
+Monitor == \A i \in 1..Len(Checks') : Checks'[i].ok \/ PrintT(<<"VERIF-VIOL", l, Checks'[i].name>>)
+
+TStep == TReset \/ TDecl \/ TRefused \/ TRequest \/ TDo \/ TFail \/ TUndo \/ TSettle
+TNext == TStep /\ Monitor
 
 Accepted == TLCGet("stats").diameter - 1 = Len(Trace)
 =============================================================================
